@@ -871,7 +871,8 @@ func ruleEmptyInEmptyOut(c *Ctx, r *R) {
 			continue
 		}
 		nRet, nonEmpty := 0, 0
-		var pos token.Pos
+		var pos, rpos token.Pos
+		reachable := false
 		instrs(fn, func(b *ssa.BasicBlock, i int, in ssa.Instruction) {
 			ret, ok := in.(*ssa.Return)
 			if !ok || len(ret.Results) != 1 {
@@ -888,6 +889,12 @@ func ruleEmptyInEmptyOut(c *Ctx, r *R) {
 			if all && len(ls) > 0 {
 				nonEmpty++
 				pos = retPos(ret)
+				// a non-empty result on a path the empty input can take: no dominating test, or only tests of the form
+				// len(param) <= x / len(param) < x / len(param) == 0, which the empty input passes
+				if emptyInputReaches(fn, b) {
+					reachable = true
+					rpos = retPos(ret)
+				}
 			}
 		})
 		if nRet == 0 {
@@ -895,6 +902,10 @@ func ruleEmptyInEmptyOut(c *Ctx, r *R) {
 		}
 		if pos == token.NoPos {
 			pos = fn.Pos()
+		}
+		if reachable {
+			r.violated("xslices."+n+"|can-return-empty", rpos, n+" returns a result with at least one element on a path that an empty input takes (the only tests in front of it are upper bounds on len): for an empty input the result must be empty")
+			continue
 		}
 		r.ok(nonEmpty < nRet, "xslices."+n+"|can-return-empty", pos, "every value "+n+" can return has at least one element (an element is appended / the result is built with a positive length unconditionally): for an empty input the result must be empty")
 	}
@@ -938,4 +949,56 @@ func provablyNonEmptySlice(v ssa.Value, d int) bool {
 		return true
 	}
 	return false
+}
+
+// emptyInputReaches: can a call whose slice parameters are all empty reach block b, judging only by the dominating branch
+// conditions? Yes when there is none, or when every one of them is a test that len(param) == 0 satisfies (len(p) <= x with x
+// not provably negative, len(p) < x, len(p) == 0). Any other condition makes the answer "unknown" = false.
+func emptyInputReaches(fn *ssa.Function, b *ssa.BasicBlock) bool {
+	isLenOfParam := func(v ssa.Value) bool {
+		call, ok := resolveVal(v).(*ssa.Call)
+		if !ok {
+			return false
+		}
+		bi, ok := call.Call.Value.(*ssa.Builtin)
+		if !ok || bi.Name() != "len" {
+			return false
+		}
+		_, isP := resolveVal(call.Call.Args[0]).(*ssa.Parameter)
+		return isP
+	}
+	for _, g := range guardsOf(b) {
+		cf, ok := g.asCmp()
+		if !ok {
+			return false
+		}
+		x, y, op := cf.x, cf.y, cf.op
+		if isLenOfParam(y) {
+			x, y, op = y, x, flip(op)
+		}
+		if !isLenOfParam(x) {
+			return false
+		}
+		switch op {
+		case token.LEQ:
+			// len <= y: fine for len == 0 unless y is a negative constant
+			if k, ok := resolveVal(y).(*ssa.Const); ok && k.Value != nil && k.Int64() < 0 {
+				return false
+			}
+		case token.LSS:
+			if k, ok := resolveVal(y).(*ssa.Const); ok && k.Value != nil && k.Int64() <= 0 {
+				return false
+			}
+			if _, isK := resolveVal(y).(*ssa.Const); !isK {
+				return false // len < chunkSize with an unknown chunkSize: could be 0
+			}
+		case token.EQL:
+			if !isConstInt(y, 0) {
+				return false
+			}
+		default:
+			return false
+		}
+	}
+	return true
 }
